@@ -288,6 +288,10 @@ bool Hist::opReRate() {
     size_t n = prev.frames.size(); if (wild || n == 0 || n > 8 || hasGaps(prev) || !subsUniform(prev) || offSpec || fileOffSpec) return false;
     long aused = int0(prev, "ANALOG", "USED"); float pr = float0(prev, "POINT", "RATE"); size_t s = prev.h.sub;
     if (aused < 1 || pr == 0.f || s < 1) return false;
+    { // a loaded object may list more labels than it has points: every frame is then (rightly, label missing) refused, nothing to re-rate
+      std::vector<std::string> labels = labelsOf(prev, "POINT"); long used = int0(prev, "POINT", "USED");
+      for (size_t f = 0; f < n; ++f) { if (used != 0 && prev.frames[f].pts.size() != (size_t)used) return false;
+          for (size_t i = 0; i < labels.size(); ++i) { bool found = false; for (size_t k = 0; k < prev.frames[f].pts.size(); ++k) if (prev.frames[f].pts[k].name == labels[i]) found = true; if (!found) return false; } } }
     size_t s2 = (size_t)rng.range(1, 6); if (s2 == s) s2 = s + 1;
     Param p("RATE"); p.set(std::vector<float>(1, pr * (float)s2)); p.lock();
     log.pre("parameter", "rerate"); Outcome oc; VF_TRY(oc, obj->parameter("ANALOG", p));
